@@ -221,6 +221,15 @@ def run(check, repo: Repo) -> None:
             if inner is not None and inner[0] == "flat":
                 return ("helical", unparse(e)[:60])
             return None
+        if isinstance(e, ast.Subscript) and isinstance(e.slice, ast.Slice) and e.slice.step is None:
+            base_k = ek(e.value, depth + 1)
+            if base_k is not None and base_k[0] == "flat" and base_k[1] == ("grid",):
+                lo_, hi_ = e.slice.lower, e.slice.upper
+                if lo_ is None and isinstance(hi_, ast.UnaryOp) and isinstance(hi_.op, ast.USub):
+                    return ("flat", ("flatslice", "lo", unparse(hi_.operand)))
+                if hi_ is None and lo_ is not None:
+                    return ("flat", ("flatslice", "hi", unparse(lo_)))
+            return None
         if isinstance(e, ast.Subscript) and isinstance(e.slice, ast.Tuple) and len(e.slice.elts) == 2 and ek(e.value, depth + 1) == ("grid",):
             kinds = []
             for x in e.slice.elts:
@@ -255,6 +264,25 @@ def run(check, repo: Repo) -> None:
                 dirs.add("horizontal" if r[1] == 1 else "vertical")
             elif label == "bounded" and ia[0] == ib[0] == "slice" and ia[1] == ib[1] and {ia[2], ib[2]} == {"lo", "hi"}:
                 dirs.add("horizontal" if ia[1] == 1 else "vertical")
+            elif ia[0] == ib[0] == "flatslice" and {ia[1], ib[1]} == {"lo", "hi"} and ia[2] == ib[2]:
+                # flat[:-k] ↔ flat[k:] pairs id p with id p + k: vertical neighbours iff k is the ROW LENGTH (number of columns)
+                from ..core.repo import TupleItem
+                kd = [d for d in definitions(be, ia[2])] if ia[2].isidentifier() else []
+                which = None
+                for d_ in kd:
+                    if isinstance(d_, TupleItem) and unparse(d_.value).endswith(".shape"):
+                        which = d_.index
+                    elif isinstance(d_, ast.Subscript) and unparse(d_.value).endswith(".shape"):
+                        which = {"0": 0, "1": 1, "-1": 1, "-2": 0}.get(unparse(d_.slice))
+                if ia[2] == "1":
+                    bad.append(f"{txt}: shifting the FLATTENED ids by one crosses row boundaries ((r, W−1) is joined to (r+1, 0))")
+                elif which == 1:
+                    dirs.add("vertical")
+                elif which == 0:
+                    bad.append(f"{txt}: the flattened ids are shifted by the number of ROWS `{ia[2]}`; the pixel below p is p + (number of columns) — on a non-square grid the "
+                               f"linked pixels are not neighbours")
+                else:
+                    raise AnalysisError(f"_build_edges[{label}]: stride `{ia[2]}` of the flat slice pair {txt} is not a dimension of the grid")
             elif label == "bounded" and {ia[0], ib[0]} == {"grid", "roll"}:
                 bad.append(f"{txt}: a roll wraps around — seam edges on a bounded grid")
             elif label == "periodic" and ia[0] == ib[0] == "slice":
@@ -331,3 +359,5 @@ MANIFEST = {
     "technique": "inductive invariant discharged by polynomial normal forms + structural edge/role checks (AST)",
 }
 MANIFEST["text"] += ' Edge end points are evaluated abstractly (id grid, roll along an axis, border slices, flattening): periodic edges are grid↔roll(axis, ±1) pairs, bounded edges are complementary border slices; shifting the flattened ids is reported as a helical seam.'
+MANIFEST["text"] += ' Sibling passes of unwrap_bf_overlap_phase_torch must forward the same caller option dict (**unwrap_kwargs).'
+MANIFEST["text"] += ' Bounded edges written as flat[:-k] / flat[k:] pairs are vertical neighbours iff k is the row LENGTH (resolved through the shape destructuring).'
